@@ -139,7 +139,8 @@ def cmd_expected() -> int:
     for sid, r in sorted(R.items()):
         for p, f in r.get("fired", {}).items():
             rule = [l.split()[1] for l in f["report"] if l.strip().startswith("rule")]
-            out.setdefault(p, {})[sid] = rule[0] if rule else "R-"
+            if f.get("rc") == 1 and rule:  # exit 2 (analysis error) is not a report
+                out.setdefault(p, {})[sid] = rule[0]
     json.dump(out, open(os.path.join(SEEDED, "EXPECTED.json"), "w"), indent=1, sort_keys=True)
     print("EXPECTED.json:", sum(len(v) for v in out.values()), "(property, seed) pairs")
     return 0
